@@ -83,7 +83,7 @@ structure ElemSpec where
   enumCls : Option String
   minV : Option Int
   maxV : Option Int
-  deriving Repr, BEq, DecidableEq, Inhabited
+  deriving Repr, DecidableEq, Inhabited
 
 /-- Everything method resolution decides about a class, computed once from the
     class table: which `build` / `validate` method it inherits, its null
@@ -104,7 +104,7 @@ structure ColSpec where
   minV : Option Int
   maxV : Option Int
   elem : Option ElemSpec
-  deriving Repr, BEq, DecidableEq, Inhabited
+  deriving Repr, DecidableEq, Inhabited
 
 def resolveElem (tbl : ClassTable) (ec : String) : Option ElemSpec :=
   (mroOf tbl ec).map (fun em =>
@@ -129,6 +129,60 @@ def resolveSpec (tbl : ClassTable) (cls : String) : Option ColSpec :=
       maxV := (firstConst tbl m (·.maxV)).join
       elem := (firstConst tbl m (·.elemCls)).bind (resolveElem tbl) })
 
+/-! ### hook bodies (one named definition per `__build__` / `__validate__` body) -/
+
+/-- `StringIntegerOrFloatColumn.__build__` -/
+def bStrIntFloat (H : FloatHost) (t : Text) : Atom :=
+  match H.parse t with
+  | some f => .float f
+  | none => match pyInt t with
+    | some i => .int i
+    | none => .str t
+
+/-- `StringOrIntegerColumn.__build__` -/
+def bStrInt (t : Text) : Atom :=
+  match pyInt t with
+  | some i => .int i
+  | none => .str t
+
+/-- `IntegerColumn.__build__`, `TranscriptStrand.__build__` -/
+def bInt (t : Text) : Except PyErr Atom :=
+  match pyInt t with
+  | some i => .ok (.int i)
+  | none => .error .value
+
+/-- `FloatColumn.__build__` -/
+def bFloat (H : FloatHost) (t : Text) : Except PyErr Atom :=
+  match H.parse t with
+  | some f => .ok (.float f)
+  | none => .error .value
+
+/-- `EnumColumn.__build__` -/
+def bEnum (E : Enums) (enumCls : Option String) (t : Text) : Except PyErr Atom :=
+  match enumCls with
+  | none => .error .type
+  | some ec => match enumLookup E ec t with
+    | some mem => .ok (.enum ec mem)
+    | none => .error .key
+
+/-- `Canonical.__build__` -/
+def bCanonical (t : Text) : Except PyErr Atom :=
+  if pyUpper t = [] then .ok (.bool false)
+  else if pyUpper t = "YES".toList then .ok (.bool true)
+  else .error .value
+
+/-- `BooleanColumn.__build__` -/
+def bBoolean (t : Text) : Except PyErr Atom :=
+  if pyUpper t = "TRUE".toList then .ok (.bool true)
+  else if pyUpper t = "FALSE".toList then .ok (.bool false)
+  else .error .value
+
+/-- `UUIDColumn.__build__` -/
+def bUuid (t : Text) : Except PyErr Atom :=
+  match pyUuid t with
+  | some n => .ok (.uuid n)
+  | none => .error .value
+
 /-- Run the `__build__` chain of a non-sequence class on a text.
     `enumCls` is `cls.__enum_class__()` of the class the hook is called on,
     `chain` the definers of `__build__` from the current `super()` position on. -/
@@ -137,60 +191,70 @@ def runBuildAtom (C : Ctx) (enumCls : Option String) : List String → Text → 
   | c :: rest, t =>
     if c = "MafCustomColumnRecord" then .ok .none
     else if c = "_BuildStringColumn" then .ok (.str t)
-    else if c = "StringIntegerOrFloatColumn" then
-      match C.H.parse t with
-      | some f => .ok (.float f)
-      | none => match pyInt t with
-        | some i => .ok (.int i)
-        | none => .ok (.str t)
-    else if c = "StringOrIntegerColumn" then
-      match pyInt t with
-      | some i => .ok (.int i)
-      | none => .ok (.str t)
-    else if c = "IntegerColumn" ∨ c = "TranscriptStrand" then
-      match pyInt t with
-      | some i => .ok (.int i)
-      | none => .error .value
-    else if c = "FloatColumn" then
-      match C.H.parse t with
-      | some f => .ok (.float f)
-      | none => .error .value
-    else if c = "EnumColumn" then
-      match enumCls with
-      | none => .error .type
-      | some ec => match enumLookup C.enums ec t with
-        | some mem => .ok (.enum ec mem)
-        | none => .error .key
-    else if c = "Canonical" then
-      let u := pyUpper t
-      if u ≠ [] ∧ u ≠ "YES".toList then .error .value else .ok (.bool (u = "YES".toList))
-    else if c = "BooleanColumn" then
-      let u := pyUpper t
-      if u = "TRUE".toList then .ok (.bool true)
-      else if u = "FALSE".toList then .ok (.bool false)
-      else .error .value
-    else if c = "NullableYesOrNo" ∨ c = "NullableYOrN" ∨ c = "PickColumn" then
-      runBuildAtom C enumCls rest (pyCapitalize t)
+    else if c = "StringIntegerOrFloatColumn" then .ok (bStrIntFloat C.H t)
+    else if c = "StringOrIntegerColumn" then .ok (bStrInt t)
+    else if c = "IntegerColumn" then bInt t
+    else if c = "TranscriptStrand" then bInt t
+    else if c = "FloatColumn" then bFloat C.H t
+    else if c = "EnumColumn" then bEnum C.enums enumCls t
+    else if c = "Canonical" then bCanonical t
+    else if c = "BooleanColumn" then bBoolean t
+    else if c = "NullableYesOrNo" then runBuildAtom C enumCls rest (pyCapitalize t)
+    else if c = "NullableYOrN" then runBuildAtom C enumCls rest (pyCapitalize t)
+    else if c = "PickColumn" then runBuildAtom C enumCls rest (pyCapitalize t)
     else if c = "YesNoOrUnknown" then runBuildAtom C enumCls rest t
-    else if c = "UUIDColumn" then
-      match pyUuid t with
-      | some n => .ok (.uuid n)
-      | none => .error .value
+    else if c = "UUIDColumn" then bUuid t
     else .error (.unmodelled ("__build__ of " ++ c))
+
+/-- `SequenceOfValuesColumn.__build__` -/
+def bSeq (C : Ctx) (elem : Option ElemSpec) (t : Text) : Except PyErr PyVal :=
+  match elem with
+  | none => .error .attribute
+  | some es =>
+    match (splitOn ';' t).mapM (runBuildAtom C es.enumCls es.buildChain) with
+    | .ok xs => .ok (.list xs)
+    | .error e => .error e
 
 /-- `cls.__build__(text)` -/
 def runBuild (C : Ctx) (sp : ColSpec) (t : Text) : Except PyErr PyVal :=
   match sp.buildChain with
   | c :: _ =>
-    if c = "SequenceOfValuesColumn" then
-      match sp.elem with
-      | none => .error .attribute
-      | some es =>
-        match (splitOn ';' t).mapM (runBuildAtom C es.enumCls es.buildChain) with
-        | .ok xs => .ok (.list xs)
-        | .error e => .error e
+    if c = "SequenceOfValuesColumn" then bSeq C sp.elem t
     else (runBuildAtom C sp.enumCls sp.buildChain t).map PyVal.atom
   | [] => .error .attribute
+
+/-- `IntegerColumn.__validate__` -/
+def vIntRange (minV maxV : Option Int) (v : PyVal) : Bool :=
+  match asInt v with
+  | none => true
+  | some i =>
+    (match minV with | some lo => decide (i < lo) | none => false) ||
+    (match maxV with | some hi => decide (hi < i) | none => false)
+
+/-- `EnumColumn.__validate__` -/
+def vEnum (enumCls : Option String) (v : PyVal) : Bool :=
+  match enumCls, v with
+  | some ec, .atom (.enum vc _) => vc != ec
+  | _, _ => true
+
+/-- `SequenceOfValuesColumn.__validate__` -/
+def vSeq (elemInvalid : Atom → Bool) (v : PyVal) : Bool :=
+  match v with
+  | .list xs => xs.any elemInvalid
+  | .tuple xs => xs.any elemInvalid
+  | _ => true
+
+/-- `NullableDnaString.__validate__` -/
+def vDna (v : PyVal) : Bool :=
+  match v with
+  | .atom (.str s) => if s = ['-'] then false else !s.all (fun b => b = 'A' || b = 'C' || b = 'G' || b = 'T')
+  | _ => true
+
+/-- `TranscriptStrand.__validate__` -/
+def vStrand (v : PyVal) : Bool :=
+  match asInt v with
+  | none => true
+  | some i => !(i = -1 || i = 1)
 
 /-- Run a `__validate__` chain; `true` = a message was returned (invalid).
     `elemInvalid` is the element validator of a sequence class. -/
@@ -206,34 +270,17 @@ def runValidate (enumCls : Option String) (minV maxV : Option Int) (elemInvalid 
     else if c = "StringIntegerOrFloatColumn" then
       !(isInstanceInt v || isInstanceFloat v || isInstanceStr v)
     else if c = "StringOrIntegerColumn" then !(isInstanceInt v || isInstanceStr v)
-    else if c = "IntegerColumn" then
-      match asInt v with
-      | none => true
-      | some i =>
-        (match minV with | some lo => decide (i < lo) | none => false) ||
-        (match maxV with | some hi => decide (hi < i) | none => false)
+    else if c = "IntegerColumn" then vIntRange minV maxV v
     else if c = "FloatColumn" then !isInstanceFloat v
-    else if c = "EnumColumn" then
-      match enumCls, v with
-      | some ec, .atom (.enum vc _) => vc != ec
-      | _, _ => true
-    else if c = "SequenceOfValuesColumn" then
-      match v with
-      | .list xs => xs.any elemInvalid
-      | .tuple xs => xs.any elemInvalid
-      | _ => true
-    else if c = "NullableDnaString" then
-      match v with
-      | .atom (.str s) => if s = ['-'] then false else !s.all (fun b => b = 'A' || b = 'C' || b = 'G' || b = 'T')
-      | _ => true
+    else if c = "EnumColumn" then vEnum enumCls v
+    else if c = "SequenceOfValuesColumn" then vSeq elemInvalid v
+    else if c = "NullableDnaString" then vDna v
     else if c = "DnaString" then
       if runValidate enumCls minV maxV elemInvalid rest v then true else !v.truthy
-    else if c = "Canonical" ∨ c = "BooleanColumn" then !isInstanceBool v
+    else if c = "Canonical" then !isInstanceBool v
+    else if c = "BooleanColumn" then !isInstanceBool v
     else if c = "UUIDColumn" then !isInstanceUuid v
-    else if c = "TranscriptStrand" then
-      match asInt v with
-      | none => true
-      | some i => !(i = -1 || i = 1)
+    else if c = "TranscriptStrand" then vStrand v
     else true   -- unknown hook body: treated as rejecting (never reached on the generated table)
 
 def ColSpec.nullValues (sp : ColSpec) : List PyVal :=
@@ -309,7 +356,7 @@ structure Column where
   key : Text
   value : PyVal
   index : Option Int
-  deriving Repr, BEq, DecidableEq, Inhabited
+  deriving Repr, DecidableEq, Inhabited
 
 def Column.render (C : Ctx) (col : Column) : Except PyErr Text :=
   match resolveSpec C.tbl col.cls with
@@ -336,5 +383,19 @@ def isSubclass (C : Ctx) (cls sup : String) : Bool :=
   match mroOf C.tbl cls with
   | some m => m.contains sup
   | none => false
+
+
+/-- Field-level acceptance as `from_line` applies it to one column of a scheme:
+    build with the scheme's class, keep the column only when it validates with
+    zero errors.  `plainOk` says whether a plain `MafColumnRecord` is an instance
+    of the scheme's class (only when the scheme's class *is* `MafColumnRecord`). -/
+def ColSpec.accept (C : Ctx) (sp : ColSpec) (plainOk : Bool) (t : Text) : Option PyVal :=
+  match sp.buildValue C t with
+  | .ok (.inl v) => if sp.valueInvalid v then none else some v
+  | .ok (.inr ()) => if plainOk then some (.atom (.str t)) else none
+  | .error _ => none
+
+/-- forget the identity of the class, keep everything method resolution decided -/
+def ColSpec.erase (sp : ColSpec) : ColSpec := { sp with cls := "", mro := [] }
 
 end Model
